@@ -393,10 +393,14 @@ orc_executor_emulate (OrcExecutor *ex)
 
     for(i=0;i<ex->n;i+=CHUNK_SIZE){
       for(j=0;j<code->n_insns;j++){
+        /* an x2/x4 instruction works on 2/4 lanes per element: both the lane
+         * count and the index of the chunk's first lane scale */
         if (ex->n - i >= CHUNK_SIZE) {
-          opcode_ex[j].emulateN (opcode_ex + j, i, CHUNK_SIZE << opcode_ex[j].shift);
+          opcode_ex[j].emulateN (opcode_ex + j, i << opcode_ex[j].shift,
+              CHUNK_SIZE << opcode_ex[j].shift);
         } else {
-          opcode_ex[j].emulateN (opcode_ex + j, i, (ex->n - i) << opcode_ex[j].shift);
+          opcode_ex[j].emulateN (opcode_ex + j, i << opcode_ex[j].shift,
+              (ex->n - i) << opcode_ex[j].shift);
         }
       }
     }
